@@ -152,9 +152,17 @@ def triple_ok(name, rep, trips):
     return False
 
 
+def total_tag(tot):
+    """input class of the total of the weight vector the sampler hands over ([n, d]; [0, 1] = raw integers)."""
+    if tot[0] == 0:
+        return 'total=raw'
+    t = Fraction(tot[0], tot[1])
+    return 'total=1' if t == 1 else ('total<1' if t < 1 else 'total>1')
+
+
 def cls_of(sampler, vecs, extra=''):
     w = vecs[0]['w']
-    tags = []
+    tags = [total_tag(vecs[0]['tot'])]
     if 0 in w:
         tags.append('zero-weights')
     if len(set(w)) < len(w):
@@ -200,8 +208,9 @@ def check_summary(ctx, world, vecs, fitp, samples, weights, got_samples, got_wei
 def build_samples(world, vecs):
     cols = [[unit_map(n, v) for v in vec['x']] for n, vec in zip(world.names, vecs)]
     samples = np.array(cols, dtype=float).T.copy()
-    w = np.array(vecs[0]['w'], dtype=float)
-    return samples, w / w.sum()
+    # the weight vector exactly as the specification hands it over (rationals of arbitrary positive total)
+    w = np.array([float(frac(v)) for v in vecs[0]['wr']], dtype=float)
+    return samples, w
 
 
 def mn_modes(samples, weights, rng_seed):
@@ -307,7 +316,7 @@ def multimode_case(ctx, world, cases, vector):
 def run_vectors(ctx, vecs, nfull, rng, nmulti=30):
     groups = {}
     for v in vecs:
-        groups.setdefault(tuple(v['w']), []).append(v)
+        groups.setdefault((tuple(v['w']), tuple(v['tot'])), []).append(v)
     tmpdir = tempfile.mkdtemp(prefix='c09_')
     try:
         worlds = {('nestle', 2): World('nestle', 2, tmpdir), ('nestle', 3): World('nestle', 3, tmpdir),
@@ -359,6 +368,8 @@ def run_vectors(ctx, vecs, nfull, rng, nmulti=30):
 # ----------------------------------------------------------------------------------------------
 
 def trace_event(eid, x, w, value, sigma_m, sigma_p, mean, cls, vector):
+    # w: the relative integer weights; the optimizer was handed w * tot / sum(w) (vector['tot']); the summaries do not
+    # depend on the total (invariant TotalFree of MC_Posterior), so TLC evaluates the operators on w
     x = [float(v) for v in x]
     x0 = min(x)
     rng_ = max(x) - x0
@@ -366,7 +377,7 @@ def trace_event(eid, x, w, value, sigma_m, sigma_p, mean, cls, vector):
     if rng_ > 0:
         Sc = 10.0 ** math.floor(math.log10(2e5 / rng_))
     sc = lambda v: int(round((v - x0) * Sc))
-    return dict(id=eid, x=[sc(v) for v in x], w=[int(v) for v in w],
+    return dict(id=eid, x=[sc(v) for v in x], w=[int(v) for v in w], tot=[int(v) for v in vector.get('tot', [1, 1])],
                 q=[sc(value - sigma_m), sc(value), sc(value + sigma_p)], mean=sc(mean), tol=3,
                 _cls=cls, _vector=vector, _detail='trace %r weights %r reported value=%r -%r +%r mean=%r' %
                 (x, w, value, sigma_m, sigma_p, mean))
@@ -394,6 +405,16 @@ def random_case(rng, dims):
     return cols, w
 
 
+def random_total(rng, w):
+    """Total of the weight vector handed to the optimizer, as [n, d]: 1 (normalised), the raw sum, or k/8."""
+    r = rng.random()
+    if r < 0.25:
+        return [1, 1]
+    if r < 0.4:
+        return [sum(w), 1]
+    return [rng.randint(1, 200), 8]
+
+
 def run_random(ctx, ncases, rng):
     tmpdir = tempfile.mkdtemp(prefix='c09_')
     events = []
@@ -406,9 +427,10 @@ def run_random(ctx, ncases, rng):
             dims = len(world.names)
             cols, w = random_case(rng, dims)
             samples = np.array([[unit_map(n, v) for v in col] for n, col in zip(world.names, cols)]).T.copy()
-            weights = np.array(w, dtype=float) / float(sum(w))
-            vector = dict(kind='random', seed=ctx.seed, case=ci, w=w, ncases=ncases)
-            cls = '%s:random:n=%d' % (world.sampler, len(w))
+            tot = random_total(rng, w)
+            weights = np.array([float(Fraction(v * tot[0], sum(w) * tot[1])) for v in w], dtype=float)
+            vector = dict(kind='random', seed=ctx.seed, case=ci, w=w, tot=tot, ncases=ncases)
+            cls = '%s:random:n=%d:%s' % (world.sampler, len(w), total_tag(tot))
             payload = (samples, weights) if world.sampler == 'nestle' else mn_modes(samples, weights, ci)
             try:
                 sol = world.run(payload, True)
@@ -473,7 +495,9 @@ def run(ctx):
                    % (4 if q else 5),
         vectors='all 1-D columns of <= %d samples x weights, stacked into 2- and 3-parameter fits (T, log H2O, planet_radius)'
                 % (3 if q else 4),
-        traces='random sample sets of 4-24 samples, integer weights 0..9 (sum <= 40), values with ties, 2-3 fitted + 3 derived')
+        traces='random sample sets of 4-24 samples, integer weights 0..9 (sum <= 40), values with ties, 2-3 fitted + 3 derived',
+        weight_totals='the weight vector handed over by the sampler double has total 1, 37/100, the raw integer sum%s '
+                      '(vectors) / 1, raw or k/8 with k in 1..200 (traces)' % ('' if q else ', 5/2'))
     ctx.assumptions = [
         'TLC + CommunityModules Json/IOUtils',
         'quantile rule = taurex.util.util.quantile_corner as documented in DESIGN (zero-weight samples take part in the '
@@ -487,6 +511,7 @@ def run(ctx):
     ctx.check_spec('exhaustive-2d', 'MC_Posterior', 'MC_Posterior_2d_%s.cfg' % ctx.tier, need_actions=('Summarise',))
     ctx.exhaustive = True
     ctx.expect_refuted('median-is-not-a-sample', 'MC_Posterior', 'MC_Posterior_refute.cfg', 'MedianIsASample')
+    ctx.expect_refuted('weights-need-not-sum-to-one', 'MC_Posterior', 'MC_Posterior_refute_total.cfg', 'WeightsSumToOne')
     res = ctx.check_spec('export', 'MC_Posterior', 'EX_Posterior_%s.cfg' % ctx.tier, workers=1)
     vecs = res.tagged('VEC')
     if len(vecs) < 1000:
